@@ -154,6 +154,19 @@ pub fn single_mutations(base: &[Token], pool: &Pool, r: &mut Rng, full: bool) ->
             out.push(Mutant { kind, fields: f, at: pos });
         }
     }
+    // the same look-alikes as the last / first characters of a value (a value may end in a hyphen
+    // or a colon; only a line consisting of "-" alone terminates the block)
+    for pos in 0..n {
+        for (kind, extra, front) in [("ends-with-hyphen", "-", false), ("ends-with-colon", ":", false), ("ends-with-space-hyphen", " -", false), ("starts-with-hyphen", "-", true)] {
+            let mut f = base.to_vec();
+            if front {
+                f[pos].content.insert_str(0, extra);
+            } else {
+                f[pos].content.push_str(extra);
+            }
+            out.push(Mutant { kind, fields: f, at: pos });
+        }
+    }
     // more lines than any documented maximum
     for pos in 0..n {
         let mut f = base.to_vec();
